@@ -204,6 +204,30 @@ def extra_shared_writes(P, funcs):
             if dn in CACHE_DECOS:
                 out.append(dict(func=f, node=f.node, target=f'memo:{f.fq}', kind='memo'))
         g = f.cfg
+        # default-argument object: a parameter whose default is a mutable literal is one object for every call that does not pass it; writing into it is a
+        # write to state that outlives the call
+        a_ = getattr(f.node, 'args', None)
+        if a_ is not None and not isinstance(f.node, ast.Lambda):
+            pos_ = a_.posonlyargs + a_.args
+            mut_defaults = {}
+            for name_, d_ in list(zip([x.arg for x in pos_][len(pos_) - len(a_.defaults):], a_.defaults)) + \
+                    [(x.arg, d2) for x, d2 in zip(a_.kwonlyargs, a_.kw_defaults) if d2 is not None]:
+                if isinstance(d_, (ast.Dict, ast.List, ast.Set)) or (isinstance(d_, ast.Call) and (dotted(d_.func) or '') in MUTABLE_CTORS):
+                    mut_defaults[name_] = d_
+            for st in walk_shallow(f.node) if mut_defaults else []:
+                base = None
+                kind = None
+                if isinstance(st, (ast.Assign, ast.AugAssign)):
+                    for t in (st.targets if isinstance(st, ast.Assign) else [st.target]):
+                        if isinstance(t, ast.Subscript) and isinstance(t.value, ast.Name) and t.value.id in mut_defaults:
+                            base, kind = t.value.id, 'item-assign'
+                elif isinstance(st, ast.Call) and isinstance(st.func, ast.Attribute) and st.func.attr in MUTATORS and isinstance(st.func.value, ast.Name) \
+                        and st.func.value.id in mut_defaults:
+                    base, kind = st.func.value.id, f'call:{st.func.attr}'
+                if base is not None:
+                    ns_ = g.node_of_stmt(st)
+                    if ns_ and all(d.kind == 'param' for d in f.rd.at(ns_[0], base)):
+                        out.append(dict(func=f, node=st, target=f'default-arg:{f.fq}.{base}', kind=kind))
         # closure-object: a nested function that outlives the call of its enclosing function (it is returned / stored) and writes into an
         # object of that enclosing scope: one object for everybody who later calls the closure
         if f.parent is not None and not isinstance(f.parent.node, ast.Lambda):
